@@ -312,3 +312,13 @@ Definition check_journal_on_disk : bool :=
   mem (pragma "journal_mode") ["delete"; "truncate"; "persist"; "wal"].
 Definition check_synchronous_on : bool :=
   mem (pragma "synchronous") ["1"; "2"; "3"].
+
+(* ------------------------------------------------------------------ C02: a height is recorded once *)
+(* The mark of a synced height (InsertSynced -> MarkHeightSynced -> markHeightSyncedVersion) is a plain INSERT:
+   PRIMARY KEY(height) then makes a second application of the same height fail and roll back.  (INSERT OR REPLACE /
+   OR IGNORE would let a sync loop with a stale in-memory height commit a height again.) *)
+Definition height_mark_sites : list (string * string * string * string * string) :=
+  filter (fun r => match r with (f, _, _, _, _) => f =? "pegnet.Pegnet.markHeightSyncedVersion" end) sql_sites.
+Definition check_height_mark_plain_insert : bool :=
+  negb (match height_mark_sites with [] => true | _ => false end) &&
+  forallb (fun r => match r with (_, _, _, rw, q) => (rw =? "W") && String.prefix "INSERT INTO ""pn_sync_version""" q end) height_mark_sites.
